@@ -15,10 +15,14 @@ THEOREMS = [
     'BB.Props.C19.device_error_not_done',
     'BB.Props.C19.single_injection_not_done',
     'BB.Props.C19.double_injection_not_done',
+    'BB.Props.C19.status_only_set_address_stops',
 ]
 
 RULE = ('fault cases = (firmware length, schedule with an error status at one or two operation indices); operations are '
         'numbered in the order the host starts them: erase of page 0..n-1, then set-address and write of each page. '
+        'About 30% of the injected faults are of the status-only flavour (bStatus = the error in the completing GETSTATUS, '
+        'bState = dfuDNLOAD_IDLE as after a success; written q<status> in the schedule), at erase, set-address and write '
+        'steps alike; the others end in dfuERROR. '
         'Enumerated completely: every status 1..15 at every one of the 3n operations of runs of n = 1..4 pages (two lengths and '
         'two busy-count shapes each), every pair of operations x every pair of statuses 1..15 for n = 1, 2. Oversize cases: '
         'size+1, size+2, size+2048, 2*size and a seeded sample of size+1..size+2048 for the four flash sizes. A case is '
@@ -35,9 +39,10 @@ def fault_cases(tier):
                 for v in range(2 if tier == 'quick' else 4):
                     n = pg * F.PAGE if v % 2 else (pg - 1) * F.PAGE + 1 + (st * 67 + i) % 1023
                     counts = [(v + i + k) % 3 for k in range(3 * pg)] if v < 2 else [r.randrange(4) for _ in range(3 * pg)]
+                    f = F.soft(st) if (7 * i + 3 * st + v) % 10 < 3 else st
                     yield 'single-injection', dict(
-                        pc=(16, 32, 64, 128)[(i + st) % 4], length=n, salt=st, faults={str(i): st},
-                        sched=F.sched_str(0 if (i + st) % 4 else st, [1], F.ops_from_counts(counts, r, {i: st})),
+                        pc=(16, 32, 64, 128)[(i + st) % 4], length=n, salt=st, faults={str(i): f},
+                        sched=F.sched_str(0 if (i + st) % 4 else st, [1], F.ops_from_counts(counts, r, {i: f})),
                         flash='-')
     # double injections
     for pg in (1, 2):
@@ -46,9 +51,11 @@ def fault_cases(tier):
                 for s2 in range(1, 16):
                     n = pg * F.PAGE if (s1 + s2) % 2 else (pg - 1) * F.PAGE + 1 + (s1 * 16 + s2)
                     counts = [(s1 + k) % 2 for k in range(3 * pg)]
+                    f1 = F.soft(s1) if (3 * i + 5 * s1 + s2) % 10 < 3 else s1
+                    f2 = F.soft(s2) if (i + 7 * j + s1 + 3 * s2) % 10 < 3 else s2
                     yield 'double-injection', dict(
-                        pc=16, length=n, salt=s2, faults={str(i): s1, str(j): s2},
-                        sched=F.sched_str(0, [0], F.ops_from_counts(counts, r, {i: s1, j: s2})), flash='-')
+                        pc=16, length=n, salt=s2, faults={str(i): f1, str(j): f2},
+                        sched=F.sched_str(0, [0], F.ops_from_counts(counts, r, {i: f1, j: f2})), flash='-')
     # seeded: longer runs, random positions (incl. statuses that are not in the DFU table)
     for k in range(300 if tier == 'quick' else 4000):
         pc = r.choice([16, 32, 64, 128])
@@ -58,10 +65,27 @@ def fault_cases(tier):
         faults = {r.randrange(3 * pg): r.choice(list(range(1, 16)) + [16, 200, 255])}
         if r.random() < 0.4:
             faults[r.randrange(3 * pg)] = r.randrange(1, 16)
+        faults = {a: (F.soft(b) if r.random() < 0.3 else b) for a, b in faults.items()}
         yield 'seeded-injection', dict(pc=pc, length=n, salt=k % 251, faults={str(a): b for a, b in faults.items()},
                                        sched=F.sched_str(r.choice([0, 0, 9]), [r.choice(F.TIMEOUTS)],
                                                          F.random_ops(r, 3 * pg, 4, faults)),
                                        flash=r.choice(['-', 'e' * pc]))
+
+
+def full_flash_fault_cases(tier):
+    """images that reach into the LAST page of the part (and the ones just short of it), with a fault at the very first erase,
+    at the last one, at the first and the last write: whatever special treatment a full image gets, an error is an error"""
+    r = common.rng('c19-full')
+    for pc in (16, 32) if tier == 'quick' else (16, 32, 64, 128):
+        size = pc * F.PAGE
+        for n in (size, size - 1, size - F.PAGE + 1, size - F.PAGE):
+            pg = F.pages_of(n)
+            for i in (0, pg - 1, pg, 3 * pg - 2, 3 * pg - 1, r.randrange(3 * pg)):
+                for st in (r.randrange(1, 16), 10):
+                    f = F.soft(st) if r.random() < 0.3 else st
+                    yield 'full-flash-injection', dict(pc=pc, length=n, salt=st, faults={str(i): f},
+                                                       sched=F.sched_str(0, [0], F.ops_from_counts([r.randrange(2) for _ in range(3 * pg)], r, {i: f})),
+                                                       flash='-')
 
 
 def oversize_cases(tier):
@@ -97,10 +121,11 @@ def run(tier, replay):
             rep.nontrivial(F.shape(case) + (case['length'] - case['pc'] * F.PAGE,))
             if tally.stop():
                 break
-        for group, case in fault_cases(tier):
-            if tally.stop():
-                break
-            F.evaluate(sess, tally, case, F.oracle_c19_fault, group)
+        for gen in (fault_cases, full_flash_fault_cases):
+            for group, case in gen(tier):
+                if tally.stop():
+                    break
+                F.evaluate(sess, tally, case, F.oracle_c19_fault, group)
     finally:
         sess.close()
     F.conclude(rep, tally, ob, THEOREMS)
